@@ -372,9 +372,10 @@ def legs(ctx):
         ]
     return [
         Leg('closure', [{'depth': 64}], work_closure, exhaustive=True, serial=True,
-            bound='fixed point of %d ops over lines {10,20,30}, programs <=3 lines' % nsmall),
-        Leg('depth', [{'depth': 4}], work_depth, exhaustive=True, serial=True,
-            bound='all histories of <=4 ops over %d ops, programs <=4 lines' % nbig),
+            bound='fixed point of %d ops over lines {10,20,30}, programs <=3 lines expanded '
+                  '(extra closure_fixed_point=1 confirms closure)' % nsmall),
+        Leg('depth', [{'depth': 5}], work_depth, exhaustive=True, serial=True,
+            bound='all histories of <=5 ops over %d ops, programs <=4 lines expanded' % nbig),
     ]
 
 
